@@ -76,9 +76,12 @@ def _c_canonical_loop(f, L, allow_break=False):
     return vid, f.alpha(c["ch"][1])[0].replace(" ", "")
 
 
-def full_range(f, i, var_id, bound_alpha):
-    """statement i sits directly in a counting loop 0..bound over variable var_id (no enclosing branch between loop and statement)"""
+def full_range(f, i, var_id, bound_alpha, through=()):
+    """statement i sits directly in a counting loop 0..bound over variable var_id (no enclosing branch between loop and statement,
+    except the IfStmt nodes listed in `through`)"""
     for a in f.ancestors(i):
+        if a in through:
+            continue
         k = f.k(a)
         if k in ("IfStmt", "WhileStmt", "DoStmt", "SwitchStmt"):
             return False
@@ -320,6 +323,9 @@ def gw4(P, C):
            "boxed with itself; F starts as the weights and R as weights*data over all entries; both are multiplied along every dimension i by "
            "dimension i's (boxed) basis; the solved system is (F + 1*penalty) c = R, by cholesky_solve when no monotonic dimension is requested; "
            "every coefficient of the solution is copied out", floor=5)
+    C.rule("GW-7", "an entry of weight zero contributes nothing to the right-hand side whatever its value: the statement that multiplies the "
+           "weight by the data value is control-dependent on a test that this entry's weight is non-zero (0*NaN = 0*inf = NaN, and one NaN in "
+           "R makes every coefficient NaN) — 'entries with zero weight have no influence'", floor=1)
     f = P.one("glamfit_complex")
     bb = calls(f, "bsplinebasis")
     bx = calls(f, "box")
@@ -335,16 +341,36 @@ def gw4(P, C):
     sl = calls(f, "slicemultiply")
     F = R = None
     ok3 = len(mc) == 2 and len(mul) == 1 and mc[0][3][0] != mc[1][3][0]
+    guard = None
     if ok3:
         R = f.alpha(mul[0])[1][0]
         both = {mc[0][3][0], mc[1][3][0]}
-        ok3 = R in both and full_range(f, mul[0], f.alpha(mul[0])[1][1], "$0->rows")
+        # the product may sit under one test of its own weight (GW-7)
+        par = [a for a in f.ancestors(mul[0]) if f.k(a) in ("IfStmt", "ForStmt")]
+        if par and f.k(par[0]) == "IfStmt" and f.nodes[par[0]].get("else", -1) < 0 and mul[0] in set(f.walk(f.nodes[par[0]]["then"])):
+            guard = par[0]
+        ok3 = R in both and full_range(f, mul[0], f.alpha(mul[0])[1][1], "$0->rows", through=(guard,) if guard is not None else ())
         F = (both - {R}).pop() if ok3 else None
         # nothing else scales or overwrites the values of F or R before the products
         other = [x for x in f.walk() if ts.assign_parts(f, x) and x != mul[0] and f.render(ts.assign_parts(f, x)[0]).replace(" ", "").endswith((".x[i]", ".x[j]", ".x[k]"))]
         ok3 = ok3 and not other
     C.ob("GW-4", "glamfit_complex", "weights-and-weighted-data", ok3, f.loc(mul[0]) if mul else f.where(),
          "F.x = weights, R.x = weights then R.x[k] *= data->x[k] for every entry k (zero weight contributes nothing to either side)")
+    # GW-7: 0*NaN and 0*inf are NaN — the data value may enter R only where the weight is known to be non-zero
+    gok = False
+    gdet = "R.x[k] *= data->x[k] is executed for every entry, also where the weight is zero: a masked cell holding NaN or inf makes R, and with it every coefficient, NaN"
+    if guard is not None and mul:
+        rx = f.render(f.nodes[mul[0]]["ch"][0]).replace(" ", "")
+        idx = f.render(f.nodes[f.strip(f.nodes[mul[0]]["ch"][0])]["ch"][1]).replace(" ", "") if f.k(f.strip(f.nodes[mul[0]]["ch"][0])) == "ArraySubscriptExpr" else None
+        c, neg = core.cond_polarity(f, f.nodes[guard]["cond"])
+        ct = f.render(c).replace(" ", "")
+        wt = ["weights[%s]" % idx, rx] + ["%s.x[%s]" % (f.var_name(F), idx)] if F is not None else []
+        forms = set()
+        for w_ in wt:
+            forms |= {"(%s!=0)" % w_, "(0<%s)" % w_, "(%s!=0.0)" % w_, "(0.0<%s)" % w_, w_}
+        gok = (not neg) and ct in forms
+        gdet = "the product is guarded by %s" % ct if gok else "the test %s%s in front of the product is not a test of the entry's own weight" % ("!" if neg else "", ct)
+    C.ob("GW-7", "glamfit_complex", "zero-weight-entry-contributes-nothing", gok, f.loc(mul[0]) if mul else f.where(), gdet)
     ok4 = len(sl) == 2 and all(s[2] == "(v0=slicemultiply((&v1),v2[v3],v3,$12))" for s in sl) and F is not None
     if ok4:
         by = {s[3][1]: s for s in sl}
